@@ -100,6 +100,27 @@ Theorem C14_llo_stays_at_target : forall h check codec_ok cf seq prev_bytes (ss 
   o_defs next = target.
 Proof. exact OutcomeEndToEnd.llo_stays_at_target. Qed.
 Print Assumptions C14_llo_stays_at_target.
+(* ... and over several rounds: from the first round on all correct nodes hold the same valid target, at most f faulty senders
+   per round, the instance in production: after at least rounds_bound = ceil(max(#to-remove, #to-add-or-replace)/5) rounds the
+   outcome's channel set IS the target (wround: the previous outcome bytes, the senders, the outcome committed; consecutive
+   rounds are linked by next = prev) *)
+Theorem C14_llo_convergence : forall h check codec_ok cf target (rs : list (OutcomeEndToEnd.wround)) r0,
+  verify_defs codec_ok target = true -> Forall (OutcomeEndToEnd.wround_ok h check codec_ok cf target) (r0 :: rs) ->
+  OutcomeEndToEnd.wlinked (r0 :: rs) ->
+  (size (dom (o_defs (OutcomeEndToEnd.wr_prev r0)) ∪ dom target) <= chan_cap)%nat ->
+  (rounds_bound (o_defs (OutcomeEndToEnd.wr_prev r0)) target <= length (r0 :: rs))%nat ->
+  o_defs (OutcomeEndToEnd.wr_next (last rs r0)) = target.
+Proof. exact OutcomeEndToEnd.llo_convergence. Qed.
+Print Assumptions C14_llo_convergence.
+Example C14_nv_convergence :
+  verify_defs (fun _ => true) NvE2E.e14_target = true /\
+  Forall (OutcomeEndToEnd.wround_ok NvHistory.nv_h (fun _ => None) (fun _ => true) NvHistory.nv_cf NvE2E.e14_target) [NvE2E.e14_r0] /\
+  OutcomeEndToEnd.wlinked [NvE2E.e14_r0] /\
+  (size (dom (o_defs (OutcomeEndToEnd.wr_prev NvE2E.e14_r0)) ∪ dom NvE2E.e14_target) <= chan_cap)%nat /\
+  (rounds_bound (o_defs (OutcomeEndToEnd.wr_prev NvE2E.e14_r0)) NvE2E.e14_target <= length [NvE2E.e14_r0])%nat /\
+  o_defs (OutcomeEndToEnd.wr_next NvE2E.e14_r0) = NvE2E.e14_target.
+Proof. exact NvE2E.e14_history. Qed.
+
 Example C14_nv_agreed_round :
   decode_outcome (c_pver NvHistory.nv_cf) NvE2E.e6_prev_bytes = Ok NvE2E.e14_prev /\ o_stage NvE2E.e14_prev = Production /\
   verify_defs (fun _ => true) NvE2E.e14_target = true /\
